@@ -353,6 +353,41 @@ theorem bytesLt_asymm (a b : Key) (h : bytesLt a b = true) : bytesLt b a = false
         · simp only [h1, h2, if_false] at h ⊢
           exact ih t h
 
+theorem bytesLt_append_cons (v : Key) (x : Nat) (r : Key) : bytesLt v (v ++ x :: r) = true := by
+  induction v with
+  | nil => rfl
+  | cons y t ih => simp [bytesLt, ih]
+
+/-- LEASTNESS: `UpperBound p` is above every byte string that starts with `p`, and no smaller byte string is -/
+theorem upperBound_least (p u : Key) (hp : Bytes p) (hu : upperBound p = some u) :
+    (∀ k, Bytes k → p <+: k → bytesLt k u = true) ∧
+    (∀ v, Bytes v → (∀ k, Bytes k → p <+: k → bytesLt k v = true) → bytesLt v u = false) := by
+  constructor
+  · intro k hk hpk
+    have := (inPrefixRange_iff p k hk).mpr hpk
+    simp only [inPrefixRange, inRange, hu, Bool.and_eq_true] at this
+    exact this.2
+  · intro v hv hall
+    cases hlt : bytesLt v u with
+    | false => rfl
+    | true =>
+      exfalso
+      by_cases hvp : bytesLt v p = true
+      · -- `p` itself starts with `p`: it would have to be below `v`
+        have h1 := hall p hp (List.prefix_refl p)
+        have h2 := bytesLt_asymm _ _ hvp
+        rw [h1] at h2
+        cases h2
+      · have hin : inPrefixRange p v = true := by
+          simp only [inPrefixRange, inRange, hu, Bool.and_eq_true, Bool.not_eq_true']
+          exact ⟨by simpa using hvp, hlt⟩
+        have hpv := (inPrefixRange_iff p v hv).mp hin
+        have hk : Bytes (v ++ [0]) := Bytes.append hv (Bytes.cons (by decide) (fun _ h => (nomatch h)))
+        have h1 := hall (v ++ [0]) hk (List.IsPrefix.trans hpv (List.prefix_append v [0]))
+        have h2 := bytesLt_asymm _ _ (bytesLt_append_cons v 0 [])
+        rw [h1] at h2
+        cases h2
+
 /-- `sort.Strings` leaves a list that is already ascending as it is -/
 theorem kvSort_sorted (l : KV) (h : l.Pairwise (fun x y => bytesLt x.1 y.1 = true)) : kvSort l = l := by
   induction l with
